@@ -58,7 +58,7 @@ def plan(tier):
     jobs = []
     kname = 'C04'
     inst = [('i32', -16, 'i16', -4), ('i16', -4, 'i32', -16), ('u8', 0, 'i32', -20), ('i32', -8, 'u32', -8), ('i64', -40, 'i16', 0),
-            ('i16', 3, 'i64', -10), ('u32', -31, 'u8', 0), ('i32', 8, 'i32', -8)]
+            ('i16', 3, 'i64', -10), ('u32', -31, 'u8', 0), ('i32', 8, 'i32', -8), ('i16', -4, 'i16', 2), ('i32', -8, 'i8', 1)]
     if thorough:
         inst += [('i8', -7, 'i8', 0), ('u64', -60, 'u16', -10), ('i64', 30, 'i64', -30), ('i32', -70, 'i32', -60), ('u16', 0, 'u64', -48), ('i16', -13, 'i64', 0)]
     P_I2I = r'^cnl::custom_operator<cnl::_impl::convert_op, cnl::op_value<[a-z_0-9 ]+, cnl::power<-?\d+, 2> >, cnl::op_value<[a-z_0-9 ]+, cnl::power<-?\d+, 2> > >::operator\(\)\('
